@@ -93,6 +93,15 @@ Definition f_linker_solve_span (ss : subscripts) (hs : lscripts) (sel : option (
                           Z (locate_index labs) lg ld labs start end_ sel o s
   end.
 
+(* a history: several solve_t calls on the same linker, one after the other (each with its own selection, options and
+   period), whatever each call returns or raises *)
+Fixpoint f_linker_history (ss : subscripts) (hs : lscripts) (calls : list (option (list sid) * fopts * Z)) (s : flstate)
+                          (acc : list lout) : flstate * list lout :=
+  match calls with
+  | [] => (s, rev acc)
+  | (sel, o, t) :: r => let '(s', out) := f_linker_solve_t ss hs sel o t s in f_linker_history ss hs r s' (out :: acc)
+  end.
+
 (* ---- comparison with the implementation's observation ---- *)
 Definition levent_eqb (a b : levent) : bool :=
   match a, b with
@@ -160,6 +169,9 @@ Inductive lcase : Type :=
 (* solve(start=, end=) by label: returned (len, [(label, index, solved)]) and final state *)
 | CSolveSpan (ss : subscripts) (hs : lscripts) (sel : option (list sid)) (o : fopts) (labels : list Z)
              (start end_ : option Z) (s : flstate) (xs : flstate) (xr : lexn + span_result Z)
+(* a sequence of solve_t calls on one linker: final state (log = all events in order) and the outcome of every call *)
+| CHistory (ss : subscripts) (hs : lscripts) (calls : list (option (list sid) * fopts * Z)) (s : flstate)
+           (xs : flstate) (xouts : list lout)
 | CCtor (subs : list (sid * subinfo)) (span : option pspan) (xr : outcome (pspan * Z * Z))
 (* the same scripted model once wrapped in a linker and once solved directly *)
 | CTwin (ss : subscripts) (sel : option (list sid)) (o : fopts) (t : Z) (s : flstate) (xs : flstate) (xo : lout)
@@ -173,6 +185,8 @@ Definition check_lcase (c : lcase) : bool :=
       let '(s', r) := f_linker_solve ss hs sel o ps s in lstate_eqb s' xs && solve_res_eqb r xr
   | CSolveSpan ss hs sel o labels start end_ s xs xr =>
       let '(s', r) := f_linker_solve_span ss hs sel o labels start end_ s in lstate_eqb s' xs && span_res_eqb r xr
+  | CHistory ss hs calls s xs xouts =>
+      let '(s', outs) := f_linker_history ss hs calls s [] in lstate_eqb s' xs && list_eqb lout_eqb outs xouts
   | CCtor subs span xr => ctor_res_eqb (linker_ctor_M subs span) xr
   | CTwin ss sel o t s xs xo m =>
       (let '(s', r) := f_linker_solve_t ss [] sel o t s in lstate_eqb s' xs && lout_eqb r xo)
